@@ -276,6 +276,7 @@ def run_wb(sc):
     def drain():
         # let posted / buffered writes reach the backing memory: quiescent = no native-port activity for 60 cycles
         n = 0
+        state["active"] = state["cycle"]      # the master's last beat counts as activity: what it posted may not have reached the native port yet
         while n < 6000 and (mem.outstanding or state["cycle"] - state["active"] < max(60, sc.get("drain", 0))):
             n += 1
             yield
@@ -525,6 +526,7 @@ def run_avl(sc):
 
     def drain():
         n = 0
+        state["active"] = state["cycle"]      # the master's last beat counts as activity: what it posted may not have reached the native port yet
         while n < 6000 and (mem.outstanding or state["cycle"] - state["active"] < max(60, sc.get("drain", 0))):
             n += 1
             yield
